@@ -98,6 +98,32 @@ theorem all_cycleVarRange (v : String) (start : Option Rv) (hs : WithOK (.cycle 
     simp only [cycleVarRange, List.all_append, nr_genRv hr, Bool.true_and]
     rfl
 
+theorem all_withClause (w : Option WithClause) (hw : OWithOK w) : (withClause w).all Instr.plainI = true := by
+  cases w with
+  | none => rfl
+  | some wc =>
+    cases wc with
+    | fromTo v a b => exact all_indexVarRange v a b false hw.1 hw.2
+    | cycle v start => exact all_cycleVarRange v start hw
+
+theorem all_loopPost (v : Option String) : (loopPost v).all Instr.plainI = true := by
+  cases v <;> rfl
+
+theorem all_iterItem {i : IterItem} (hi : ItemOK i) : (iterItem i).all Instr.plainI = true := by
+  cases i with
+  | all => rfl
+  | light n => simp only [iterItem, List.all_append, nr_genRv (show RvOK n from hi), Bool.true_and]; rfl
+  | group n => simp only [iterItem, List.all_append, nr_genRv (show RvOK n from hi), Bool.true_and]; rfl
+  | location n => simp only [iterItem, List.all_append, nr_genRv (show RvOK n from hi), Bool.true_and]; rfl
+
+theorem all_iterItems (items : List IterItem) (h : ∀ i ∈ items, ItemOK i) :
+    (iterItems items).all Instr.plainI = true := by
+  induction items with
+  | nil => rfl
+  | cons i rest ih =>
+    rw [iterItems_cons, List.all_append, ih (fun j hj => h j (by simp [hj])), all_iterItem (h i (by simp))]
+    rfl
+
 theorem nr_genLoop {hd : LoopHdr} (hh : LoopHdrOK hd) (body : Code) (hb : nr body = true) :
     nr (genLoop hd body) = true := by
   cases hd with
@@ -112,7 +138,18 @@ theorem nr_genLoop {hd : LoopHdr} (hh : LoopHdrOK hd) (body : Code) (hb : nr bod
   | cycle n v start =>
     refine nr_assembleLoop _ _ _ _ _ ?_ rfl rfl hb rfl
     rw [List.all_append, nr_genRv hh.1, all_cycleVarRange v start hh.2]; rfl
-  | _ => exact absurd hh (by simp [LoopHdrOK])
+  | all lv w =>
+    refine nr_assembleLoop _ _ _ _ _ ?_ rfl rfl hb (all_loopPost _)
+    rw [List.all_append, List.all_append, all_withClause w hh]; rfl
+  | groups lv w =>
+    refine nr_assembleLoop _ _ _ _ _ ?_ rfl rfl hb (all_loopPost _)
+    rw [List.all_append, List.all_append, all_withClause w hh]; rfl
+  | locations lv w =>
+    refine nr_assembleLoop _ _ _ _ _ ?_ rfl rfl hb (all_loopPost _)
+    rw [List.all_append, List.all_append, all_withClause w hh]; rfl
+  | iter items lv w =>
+    refine nr_assembleLoop _ _ _ _ _ ?_ rfl rfl hb (all_loopPost _)
+    rw [List.all_append, List.all_append, all_withClause w hh.2, all_iterItems items hh.1]; rfl
 
 theorem nr_genRv_simple {a : Rv} (ha : SimpleArg a) (d : Dst) : (genRv a (.to d)).all Instr.plainI = true := by
   cases ha with
